@@ -96,6 +96,66 @@ def genDbStep (E : Ext) (db : signature.SignatureDatabase) (op : String) : signa
     if r.2.2.isNone then (r.2.1, "ok " ++ genDbBytes r.2.1) else (db, "err " ++ genDbBytes db)
   | _ => (db, "bad-op")
 
+/-! ### held lists (same book of positions as `opsStep` of the model driver, over the translated code) -/
+
+structure GenOpsState where
+  db : signature.SignatureDatabase
+  held : List (Option Nat)
+
+def genDropIdx (db : signature.SignatureDatabase) (t o : util.EFIGUID) (d : Bytes) : Option Nat :=
+  match db.findIdx? (fun l => util.CmpEFIGUID l.SignatureType t && l.Size == UInt32.ofNat d.length + util.SizeofEFIGUID
+      && (l.Exists ⟨o, d⟩).1) with
+  | some i => (match db[i]? with
+    | some l => if l.Signatures.length == 1 then some i else none
+    | none => none)
+  | none => none
+
+def genHeldAfterDrop (held : List (Option Nat)) (j : Nat) : List (Option Nat) :=
+  held.map fun h => match h with
+    | some i => if i == j then none else if i > j then some (i - 1) else some i
+    | none => none
+
+def genOpsStep (E : Ext) (st : GenOpsState) (op : String) : GenOpsState × String :=
+  match op.splitOn "," with
+  | [hop, k, sig] =>
+    if hop == "HA" || hop == "HR" then
+      match st.held[natArg k]?, gparseSigs sig with
+      | some h, [s] =>
+        (match h with
+        | none => (st, "detached " ++ genDbBytes st.db)
+        | some i =>
+          match st.db[i]? with
+          | none => (st, "detached " ++ genDbBytes st.db)
+          | some l =>
+            if hop == "HA" then
+              let r := l.AppendBytes E s.Owner s.Data
+              if r.2.isNone then let db' := st.db.set i r.1; ({ st with db := db' }, "ok " ++ genDbBytes db')
+              else (st, "err " ++ genDbBytes st.db)
+            else if l.Signatures.length == 1 && (l.Exists s).1 then (st, "skip " ++ genDbBytes st.db)
+            else
+              let r := l.RemoveBytes s.Owner s.Data
+              if r.2.isNone then let db' := st.db.set i r.1; ({ st with db := db' }, "ok " ++ genDbBytes db')
+              else (st, "err " ++ genDbBytes st.db))
+      | _, _ => (st, "nolist " ++ genDbBytes st.db)
+    else
+      let (db', o) := genDbStep E st.db op
+      if hop == "LM" && o != "bad-op" then (⟨db', st.held ++ [some (db'.length - 1)]⟩, o) else (⟨db', st.held⟩, o)
+  | kind :: rest =>
+    let (db', o) := genDbStep E st.db op
+    if o == "bad-op" then (⟨db', st.held⟩, o)
+    else if kind == "L" || kind == "LM" || kind == "LH" || kind == "DH" then
+      (⟨db', st.held ++ [some (db'.length - 1)]⟩, o)
+    else if kind == "R" && o.startsWith "ok " then
+      match rest with
+      | [t, ow, d] =>
+        (match genDropIdx st.db (gOfWire (unhex t)) (gOfWire (unhex ow)) (unhex d) with
+        | some j => (⟨db', genHeldAfterDrop st.held j⟩, o)
+        | none => (⟨db', st.held⟩, o))
+      | _ => (⟨db', st.held⟩, o)
+    else if kind == "E" && o.startsWith "ok " then (⟨db', st.held.map fun _ => none⟩, o)
+    else (⟨db', st.held⟩, o)
+  | _ => (st, "bad-op")
+
 def handleGen (op : String) (args : List String) : Option String :=
   match op, args with
   | "gen.sigdb.read", [h] =>
@@ -114,8 +174,8 @@ def handleGen (op : String) (args : List String) : Option String :=
     (match db0 with
     | none => some "start-err"
     | some db0 =>
-      let (_, outs) := (ops.splitOn ";").foldl (fun (acc : signature.SignatureDatabase × List String) op =>
-        let (db', o) := genDbStep E acc.1 op; (db', o :: acc.2)) (db0, [])
+      let (_, outs) := (ops.splitOn ";").foldl (fun (acc : GenOpsState × List String) op =>
+        let (st', o) := genOpsStep E acc.1 op; (st', o :: acc.2)) (⟨db0, []⟩, [])
       some ("/".intercalate outs.reverse))
   | "gen.auth.read", [h] =>
     let bs := unhex h
